@@ -12,6 +12,22 @@ COMMON_NOTE = ("Trusted: Lean 4.33 kernel; axioms ⊆ {propext, Classical.choice
 
 # id -> (technique, level text, level note extra, design_ref)
 CHECKS = {
+    "C17": ("Lean 4 proof by induction over update histories (invariant: every profile is the original rolled by the "
+            "shifts on record) + differential correspondence after every call + fresh-cube oracle",
+            "Theorems cube_after_history (the cube depends only on the LAST dm and period targets), history_irrelevant, "
+            "idempotent_dm/period, return_restores (bit for bit), multiset_preserved, one_shot, dm_period_commute; "
+            "np.roll as rollRow with rollP_rollP composition. Histories are unbounded.",
+            "The float maps target→drift vector are parameters of each operation (taken from the implementation per "
+            "target, required only to be what the implementation computes relative to the folding values).", "§5 C17"),
+    "C19": ("Lean 4 proof of schedule independence from footprint disjointness (any permutation / chunking / thread "
+            "count) + per-kernel store-index obligations REGENERATED from kernels.py on every run + thread-count / "
+            "chunk-size / repetition sweep of the compiled kernels",
+            "Theorems perm_independent, schedule_eq_seq, chunks_eq_seq, schedules_agree, footprint_disjoint, and per "
+            "kernel *_disjoint instantiations of the generated obligations (store index injective in the prange "
+            "variable, slices disjoint, no foreign reads of written arrays); chan_to_sub_lt for the caller-side bound.",
+            "Partial by nature: numba's lowering, gufunc scheduler and the hardware memory model are not modelled; "
+            "schedules are orders of whole iterations (step-level interleavings of loads/stores are not modelled); a "
+            "moved prange axis breaks an obligation deterministically even when no run exhibits the race.", "§5 C19"),
     "C09": ("Lean 4 proof of the delay law's algebra over ℚ (round-half-even odd/monotone/nearest) and of the index form of "
             "every block dedispersion path (np.roll as List.rotate) + differential correspondence incl. exact-rational "
             "delay law vs float32 delays + x[c,t+delay_c] oracle on unique-valued data",
